@@ -6,6 +6,62 @@ ALL = ["C%02d" % i for i in range(1, 21)]
 
 # id -> (category, level text, level note, technique, design ref)
 CHECKS = {
+ "C02": ("exploration",
+   "A harness-defined format runs inside the real decode.Decode and calls every scalar reader family of *decode.D by reflection (U/S 1..64 fixed-width, explicit-endian, generic, all six call styles; big integers to 512 bits; IEEE 16/32/64/80; fixed point; LEB128; unary; bool; UTF-8/16 fixed/null-terminated/length-prefixed) at all 8 alignments over boundary + random patterns; value, position and field range are compared with independent big-integer / IEEE arithmetic on the bit string; unsatisfiable reads must fail.",
+   "Little-endian only at whole-byte widths; ULEB128 in [2^63,2^64) may be rejected; float80 compared up to one ulp.",
+   "runtime monitor: reflection-driven differential check of reader calls against an arithmetic oracle", "DESIGN.md §3 C02"),
+ "C06": ("exploration",
+   "A finite enumerable mutation family (truncations, bit flips, byte overwrites, length saturation, block dup/remove) around the <=6 smallest corpus samples per format x all registered formats + probe x force runs in isolated worker processes; an event is a Go panic escaping decode.Decode/interp.Main or the death of the worker by a Go fatal error. Quick = PRNG slice (250k cases, equal share per format), thorough = the whole family.",
+   "Hangs and out-of-memory kills (decoder loops under force) are inconclusive and listed per format, never verdicts. A crash needing two coordinated edits far apart is outside the family.",
+   "runtime monitor: crash oracle over an enumerated fault family, process isolation with journaled workers", "DESIGN.md §3 C06"),
+ "C07": ("exploration",
+   "Grammar-generated standard jq programs (type-guided, every built-in fq redefines, local defs shadowing fq names) on generated JSON inputs are run by fq (Interp.Eval and the in-process CLI) and by the vanilla gojq fork; output sequences and error positions are compared as values; disagreements are shrunk and signed by (built-ins, input type, kind).",
+   "Error text is not compared; environment-dependent built-ins are excluded; timeouts are inconclusive.",
+   "runtime monitor: differential testing against the embedded reference engine", "DESIGN.md §3 C07"),
+ "C09": ("exploration",
+   "Generated expression trees over strings, integers, big integers, decode-value fields and opened files with tobits/tobytes(/n)/to*range, indexing, slicing, .bits/.bytes, nested binary arrays, tonumber/tostring/explode/to_hex and the size/start/stop/unit keys are evaluated by fq and by a Go reference bit-string evaluator written from doc/usage.md; algebraic laws are derived cases.",
+   "Negative top-level numbers and floats are out of domain.",
+   "runtime monitor: program generator + reference evaluator", "DESIGN.md §3 C09"),
+ "C10": ("exploration",
+   "dump/hexdump output of 69 trees x sampled configurations (line_bytes 1..64, addrbase/sizebase {2,8,10,16,36}, display_bytes, verbose, colour) is parsed back into rows and every address, hex pair, ASCII cell, verbose range/size and truncation marker is compared with the input bytes and an independent formatter; JSON output of generated values (big integers, floats, control/astral characters) is parsed back exactly.",
+   "Column width is fq's presentation choice; the truncation marker may be cut by the column.",
+   "runtime monitor: parse-back of displayed output against the input bytes", "DESIGN.md §3 C10"),
+ "C11": ("exploration",
+   "Programs generated from the full grammar of the embedded parser are (1) round-tripped through fq's own _query_fromstring/_query_tostring and compared as normalised ASTs, (2) run as original and printed text by vanilla gojq on 3 inputs, (3) run through the fq CLI wrapper (_cli_eval) and compared with direct evaluation, including names that collide with the wrapper's internals.",
+   "CLI stderr compared by number of error lines and exit status only.",
+   "runtime monitor: round-trip + differential semantic check over generated programs", "DESIGN.md §3 C11"),
+ "C12": ("exploration",
+   "For sampled values of corpus/mutated/forced trees decoded through the jq layer, getpath/topath/parent/root/buffer_root/format_root/parents are compared by Go pointer identity with an independent top-down walk; generated hostile path arrays are round-tripped through path_to_expr | expr_to_path.",
+   "Pointer identity of *decode.Value is the notion of 'same value'.",
+   "runtime monitor: identity oracle over navigation results + round-trip law", "DESIGN.md §3 C12"),
+ "C13": ("exploration",
+   "Every function in scope that vanilla gojq does not provide (jq definitions and Go registrations, all arities, enumerated at run time) is applied to inputs/arguments from a pool of boundary values and hostile option objects inside try/catch, batched per evaluation in isolated worker processes; an event is a Go panic at the boundary or a worker death by a Go fatal error.",
+   "Functions that block or terminate by design are excluded by name; hangs/OOM are inconclusive and listed per function.",
+   "runtime monitor: crash oracle over enumerated function x boundary-value cases", "DESIGN.md §3 C13"),
+ "C14": ("exploration",
+   "Each encoder/decoder pair is driven with generated inputs of its documented domain; results are compared with Go stdlib (and Python in thorough) references, inverse laws are checked, malformed inputs must raise.",
+   "Quick-tier hash oracle links the same Go libraries as fq (thorough adds Python hashlib).",
+   "runtime monitor: differential check against reference implementations + inverse laws", "DESIGN.md §3 C14"),
+ "C15": ("exploration",
+   "gzip/zip/tar/png/gif/wav (+bzip2 in thorough) files are written by Go stdlib (and Python in thorough) from generated contents; fq's names, sizes, header fields, payload bytes and checksum verdicts are compared with what was stored; single-byte corruptions of checksummed regions must not give a clean result when the independent reader rejects them.",
+   "Domain restricted to what the independent writers emit.",
+   "runtime monitor: differential check against independent writers/readers + fault injection into checksummed regions", "DESIGN.md §3 C15"),
+ "C16": ("exploration",
+   "Spec-level encoders written in the harness (msgpack, cbor, bson, bencode, asn1 ber) and stdlib emitters (json, jsonl, yaml, toml, xml, csv) encode generated values in every alternative wire form; fq's torepr/tovalue must return the value, strict prefixes must be decode errors, trailing data an error (text) or a gap (binary). Wire forms seen by the decoder are read back from the tree.",
+   "Values without a JSON-like representation (cbor tags, non-string keys, …) are checked for no-crash only.",
+   "runtime monitor: differential check against independent encoders + truncation/trailing-data faults", "DESIGN.md §3 C16"),
+ "C17": ("exploration",
+   "PRNG-composed command lines from the documented flag table x 0..4 inputs (decodable, undecodable, missing, directory) x program kinds run in-process; a reference model predicts the exit status, a metamorphic relation checks that outputs of good inputs are independent of interleaved failing ones, and jq-compatible modes are compared with vanilla gojq.",
+   "Model encodes the documented contract; explicit single format never gives exit 4.",
+   "runtime monitor: reference-model + metamorphic checks over generated command lines", "DESIGN.md §3 C17"),
+ "C18": ("exploration",
+   "70 (quick) decode+display jobs on the shared DefaultRegistry are run in a golden process, in permuted orders with repeats, and concurrently on 2..64 goroutines with a start barrier in fresh -race processes; every output is compared byte for byte with the golden and race detector reports are violations.",
+   "Race detector sees only executed unsynchronised accesses; first-use races get a handful of fresh processes.",
+   "Go race detector + output-equality monitor across orders and interleavings", "DESIGN.md §3 C18"),
+ "C19": ("exploration",
+   "Hand-written Ethernet/raw/SLL/SLL2/loopback + IPv4 + TCP builders and pcap/pcapng writers produce captures of generated conversations (segmentation, interleaving, retransmits, adjacent swaps, fragmentation, omissions); fq's reassembled streams, endpoints, skipped_bytes and ipv4_reassembled are compared with what was sent.",
+   "IPv4 only; handshake packets never reordered; a hole is knowable only if a later segment of that direction is captured.",
+   "runtime monitor: differential check of reassembly against generated ground truth", "DESIGN.md §3 C19"),
  "C03": ("exploration",
    "Invariant walker at the API boundary: every *decode.Value returned by decode.Decode for the sample corpus under its own formats, the probe and forced decoding, and for a PRNG slice of the systematic truncation/corruption family (partial trees), is walked and checked for I1..I6 (range inside buffer, children inside parent, unique names + ByName, struct order, array indices, parent links). Jobs run in isolated worker processes.",
    "Trusts the harness walker; roots' hybrid Range (Start in parent buffer, Len own length) follows decode.go. The generated-decoder reference interpreter of DESIGN §3 C03 is not built yet, so 'ranges are exactly the bits each field read' is only checked through C04/C05 content comparisons.",
